@@ -76,6 +76,11 @@ struct TxnSpec {
     /// Cancel the transaction's future after this many `Pending`s (0 = never).
     cancel_after: u64,
     yield_mask: u32,
+    /// A cooperating clone of the store (its own task) is inside a multi-statement, yielding
+    /// `store.tx(..)` closure of this transaction at the moment the owner ends it.
+    sibling: bool,
+    /// End the transaction by dropping its future exactly while the sibling is inside `tx(..)`.
+    cancel_in_sibling: bool,
 }
 
 struct TxnRec {
@@ -84,6 +89,9 @@ struct TxnRec {
     nrows: usize,
     spec_end: End,
     cancel_after: u64,
+    sibling: bool,
+    /// Fired by the body when it wants its own future dropped right now (cancel_in_sibling).
+    cancel_me: tokio::sync::Notify,
     phase: AtomicU8,
     seen: AtomicI64,
     begin_call_seq: AtomicU64,
@@ -99,11 +107,15 @@ struct Log {
     /// Milliseconds since the round started, per event (diagnostic only, never judged).
     at_ms: Mutex<Vec<u64>>,
     t0: Instant,
+    /// Sibling tasks spawned by transactions of this round (joined before the final checks).
+    helpers: Mutex<Vec<JoinHandle<()>>>,
+    /// Owners that ended their transaction while the sibling was verifiably inside `tx(..)`.
+    ended_while_sibling_inside: AtomicU64,
 }
 
 impl Default for Log {
     fn default() -> Self {
-        Log { seq: AtomicU64::new(0), events: Mutex::default(), at_ms: Mutex::default(), t0: Instant::now() }
+        Log { seq: AtomicU64::new(0), events: Mutex::default(), at_ms: Mutex::default(), t0: Instant::now(), helpers: Mutex::default(), ended_while_sibling_inside: AtomicU64::new(0) }
     }
 }
 
@@ -136,7 +148,7 @@ async fn writes(store: &SqliteStore, spec: &TxnSpec, rec: &TxnRec) -> Result<(),
     rec.phase.store(WRITING, Ordering::SeqCst);
     maybe_yield(spec, 1).await;
     for k in 0..spec.nrows {
-        if spec.end == End::Error && k == spec.error_after_rows {
+        if spec.end == End::Error && !spec.sibling && k == spec.error_after_rows {
             break;
         }
         let (id, kk) = (spec.id as i64, k as i64);
@@ -163,7 +175,7 @@ async fn writes(store: &SqliteStore, spec: &TxnSpec, rec: &TxnRec) -> Result<(),
         })
         .await?;
     maybe_yield(spec, 20).await;
-    if spec.end == End::Error {
+    if spec.end == End::Error && !spec.sibling {
         rec.phase.store(ERRORING, Ordering::SeqCst);
         // A statement that fails (no such table); `?` then leaves the transaction body.
         store
@@ -178,7 +190,85 @@ async fn writes(store: &SqliteStore, spec: &TxnSpec, rec: &TxnRec) -> Result<(),
     Ok(())
 }
 
-async fn body_explicit(store: &SqliteStore, spec: &TxnSpec, rec: &TxnRec, log: &Log) -> Result<(), SqliteError> {
+#[derive(Default)]
+struct Sib {
+    inside: std::sync::atomic::AtomicBool,
+    owner_done: std::sync::atomic::AtomicBool,
+    finished: std::sync::atomic::AtomicBool,
+}
+
+/// Dropped together with the owner's locals (before the permit, which is declared earlier): tells
+/// the sibling that the owner has ended the transaction.
+struct SibGuard {
+    sib: Arc<Sib>,
+    counter: Option<Arc<Log>>,
+}
+
+impl Drop for SibGuard {
+    fn drop(&mut self) {
+        if self.sib.inside.load(Ordering::SeqCst) && !self.sib.finished.load(Ordering::SeqCst) {
+            if let Some(log) = &self.counter {
+                log.ended_while_sibling_inside.fetch_add(1, Ordering::SeqCst);
+            }
+        }
+        self.sib.owner_done.store(true, Ordering::SeqCst);
+    }
+}
+
+/// Spawn a cooperating task on a clone of the store that works inside the *current* transaction
+/// through one `store.tx(..)` closure with two statements and several suspension points between
+/// them (the closure holds the store's transaction slot for its whole duration). Returns once the
+/// sibling is inside the closure. When the owner aborts, the sibling stays inside for a few more
+/// milliseconds; when the owner commits / rolls back, `commit`/`rollback` have to wait for it.
+async fn start_sibling(store: &SqliteStore, spec: &TxnSpec, rec: &TxnRec, log: &Arc<Log>) -> SibGuard {
+    let sib = Arc::new(Sib::default());
+    let (s2, sib2) = (store.clone(), sib.clone());
+    let (id, seen) = (spec.id as i64, rec.seen.load(Ordering::SeqCst));
+    let hold = if spec.cancel_in_sibling || matches!(spec.end, End::Error | End::DropPermit) { 40 } else { 3 };
+    let h = tokio::spawn(async move {
+        let _ = s2
+            .tx(async |tx| {
+                query("INSERT INTO vh_rows (txn, k, seen) VALUES (?, 100, ?)").bind(id).bind(seen).execute(&mut **tx).await?;
+                sib2.inside.store(true, Ordering::SeqCst);
+                let mut after = 0;
+                for i in 0..hold {
+                    if i % 2 == 0 {
+                        tokio::task::yield_now().await;
+                    } else {
+                        tokio::time::sleep(Duration::from_micros(200)).await;
+                    }
+                    if sib2.owner_done.load(Ordering::SeqCst) {
+                        after += 1;
+                        if after >= 6 {
+                            break;
+                        }
+                    }
+                }
+                query("INSERT INTO vh_rows (txn, k, seen) VALUES (?, 101, ?)").bind(id).bind(seen).execute(&mut **tx).await?;
+                Ok(())
+            })
+            .await;
+        sib2.finished.store(true, Ordering::SeqCst);
+    });
+    log.helpers.lock().unwrap().push(h);
+    log.ev(spec.id, "sibling-spawned");
+    for _ in 0..50_000 {
+        if sib.inside.load(Ordering::SeqCst) || sib.finished.load(Ordering::SeqCst) {
+            break;
+        }
+        tokio::task::yield_now().await;
+    }
+    log.ev(spec.id, "sibling-inside-tx");
+    SibGuard { sib, counter: Some(log.clone()) }
+}
+
+/// Sibling transactions that end by cancellation: ask the driver to drop this future now.
+async fn cancel_here(rec: &TxnRec) {
+    rec.cancel_me.notify_one();
+    futures::future::pending::<()>().await;
+}
+
+async fn body_explicit(store: &SqliteStore, spec: &TxnSpec, rec: &TxnRec, log: &Arc<Log>) -> Result<(), SqliteError> {
     rec.phase.store(BEGIN_CALLED, Ordering::SeqCst);
     rec.begin_call_seq.store(log.ev(spec.id, "begin-call"), Ordering::SeqCst);
     let permit = store.begin().await?;
@@ -187,6 +277,15 @@ async fn body_explicit(store: &SqliteStore, spec: &TxnSpec, rec: &TxnRec, log: &
     maybe_yield(spec, 0).await;
     // `?` here drops `permit` (error path).
     writes(store, spec, rec).await?;
+    let _sib = if spec.sibling { Some(start_sibling(store, spec, rec, log).await) } else { None };
+    if spec.cancel_in_sibling {
+        cancel_here(rec).await;
+    }
+    if spec.sibling && spec.end == End::Error {
+        // Error path while the sibling is inside `tx(..)`: `?` drops the permit.
+        rec.phase.store(ERRORING, Ordering::SeqCst);
+        Err::<(), _>(SqliteError::TransactionMissing)?;
+    }
     match spec.end {
         End::Commit | End::Error => {
             rec.phase.store(ENDING_COMMIT, Ordering::SeqCst);
@@ -220,13 +319,21 @@ async fn body_explicit(store: &SqliteStore, spec: &TxnSpec, rec: &TxnRec, log: &
     Ok(())
 }
 
-async fn body_macro(store: &SqliteStore, spec: &TxnSpec, rec: &TxnRec, log: &Log) -> Result<(), SqliteError> {
+async fn body_macro(store: &SqliteStore, spec: &TxnSpec, rec: &TxnRec, log: &Arc<Log>) -> Result<(), SqliteError> {
     rec.phase.store(BEGIN_CALLED, Ordering::SeqCst);
     rec.begin_call_seq.store(log.ev(spec.id, "begin-call"), Ordering::SeqCst);
     tx!(store, {
         rec.phase.store(BEGUN, Ordering::SeqCst);
         rec.begun_seq.store(log.ev(spec.id, "begun"), Ordering::SeqCst);
         writes(store, spec, rec).await?;
+        let _sib = if spec.sibling { Some(start_sibling(store, spec, rec, log).await) } else { None };
+        if spec.cancel_in_sibling {
+            cancel_here(rec).await;
+        }
+        if spec.sibling && spec.end == End::Error {
+            rec.phase.store(ERRORING, Ordering::SeqCst);
+            Err::<(), _>(SqliteError::TransactionMissing)?;
+        }
         rec.phase.store(ENDING_COMMIT, Ordering::SeqCst);
         log.ev(spec.id, "commit-call");
     });
@@ -236,7 +343,7 @@ async fn body_macro(store: &SqliteStore, spec: &TxnSpec, rec: &TxnRec, log: &Log
 }
 
 /// Run one transaction: its future is polled by hand and dropped after `cancel_after` Pendings.
-async fn run_txn(store: &SqliteStore, spec: &TxnSpec, rec: &Arc<TxnRec>, log: &Log) -> Option<u64> {
+async fn run_txn(store: &SqliteStore, spec: &TxnSpec, rec: &Arc<TxnRec>, log: &Arc<Log>) -> Option<u64> {
     let fut = async {
         if spec.via_macro {
             body_macro(store, spec, rec, log).await
@@ -244,7 +351,17 @@ async fn run_txn(store: &SqliteStore, spec: &TxnSpec, rec: &Arc<TxnRec>, log: &L
             body_explicit(store, spec, rec, log).await
         }
     };
-    let r = AssertUnwindSafe(CancelAfter::new(fut, spec.cancel_after)).catch_unwind().await;
+    let driven = async {
+        let inner = CancelAfter::new(fut, spec.cancel_after);
+        tokio::pin!(inner);
+        tokio::select! {
+            biased;
+            r = &mut inner => r,
+            // The body asked to be dropped at exactly this point (sibling inside `tx(..)`).
+            _ = rec.cancel_me.notified() => Polled::Cancelled(0),
+        }
+    };
+    let r = AssertUnwindSafe(driven).catch_unwind().await;
     let (how, pendings) = match r {
         Ok(Polled::Done(Ok(()), p)) => ("returned-ok".to_string(), Some(p)),
         Ok(Polled::Done(Err(e), p)) => {
@@ -258,7 +375,11 @@ async fn run_txn(store: &SqliteStore, spec: &TxnSpec, rec: &Arc<TxnRec>, log: &L
         }
         Ok(Polled::Cancelled(p)) => {
             rec.end_seq.store(log.ev(spec.id, "cancelled"), Ordering::SeqCst);
-            (format!("cancelled-after-{p}-pendings"), None)
+            if spec.cancel_in_sibling && p == 0 {
+                ("cancelled-while-sibling-inside-tx".to_string(), None)
+            } else {
+                (format!("cancelled-after-{p}-pendings"), None)
+            }
         }
         Err(p) => {
             let msg = p
@@ -302,29 +423,46 @@ fn gen_round(rng: &mut Rng, next_id: &mut u64) -> Round {
     let n_tasks = 2 + rng.usize_below(if many { 15 } else { 5 });
     let mut tasks = Vec::new();
     // Make sure every kind of end occurs in the round.
-    let mut forced: Vec<(End, bool)> = vec![
-        (End::Commit, false),
-        (End::Commit, true),
-        (End::Rollback, false),
-        (End::Error, false),
-        (End::Error, true),
-        (End::DropPermit, false),
+    // (end, via tx! macro, sibling inside tx(..) when the owner ends, ended by cancellation there)
+    let mut forced: Vec<(End, bool, bool, bool)> = vec![
+        (End::Commit, false, false, false),
+        (End::Commit, true, false, false),
+        (End::Rollback, false, false, false),
+        (End::Error, false, false, false),
+        (End::Error, true, false, false),
+        (End::DropPermit, false, false, false),
     ];
     rng.shuffle(&mut forced);
+    // Every abort kind (and commit / rollback) with a cooperating clone inside `store.tx(..)`;
+    // these are popped first so that even the smallest round contains them.
+    let mut with_sibling: Vec<(End, bool, bool, bool)> = vec![
+        (End::Commit, false, true, false),
+        (End::Rollback, false, true, false),
+        (End::DropPermit, false, true, false),
+        (End::Error, false, true, false),
+        (End::Error, true, true, false),
+        (End::Commit, false, true, true),
+        (End::Commit, true, true, true),
+    ];
+    rng.shuffle(&mut with_sibling);
+    forced.extend(with_sibling);
     let mut forced_cancel = 2;
     for _ in 0..n_tasks {
-        let n_tx = 3 + rng.usize_below(6);
+        let n_tx = 4 + rng.usize_below(5);
         let mut specs = Vec::new();
         for _ in 0..n_tx {
-            let (end, via_macro) = match forced.pop() {
+            let (end, via_macro, sibling, cancel_in_sibling) = match forced.pop() {
                 Some(f) => f,
                 None => {
                     let end = *rng.pick(&[End::Commit, End::Commit, End::Commit, End::Rollback, End::Error, End::DropPermit]);
-                    (end, matches!(end, End::Commit | End::Error) && rng.chance(0.4))
+                    let sibling = rng.chance(0.08);
+                    (end, matches!(end, End::Commit | End::Error) && rng.chance(0.4), sibling, sibling && rng.chance(0.3))
                 }
             };
             let nrows = 1 + rng.usize_below(4);
-            let cancel = if forced_cancel > 0 || rng.chance(0.15) {
+            let cancel = if sibling {
+                0
+            } else if forced_cancel > 0 || rng.chance(0.15) {
                 forced_cancel = (forced_cancel as i32 - 1).max(0);
                 1 + rng.below(24)
             } else {
@@ -339,6 +477,8 @@ fn gen_round(rng: &mut Rng, next_id: &mut u64) -> Round {
                 error_after_rows: rng.usize_below(nrows + 1),
                 cancel_after: cancel,
                 yield_mask: if rng.chance(0.3) { 0 } else { rng.next_u32() },
+                sibling,
+                cancel_in_sibling,
             });
         }
         tasks.push(specs);
@@ -446,6 +586,7 @@ struct RoundResult {
     events: Vec<(u64, u64, &'static str)>,
     at_ms: Vec<u64>,
     fresh_retries: u64,
+    ended_while_sibling_inside: u64,
     counter: i64,
     rows: BTreeMap<u64, Vec<(i64, i64)>>,
     wedge: Option<(String, Value)>,
@@ -491,6 +632,8 @@ fn new_rec(spec: &TxnSpec, task: usize) -> Arc<TxnRec> {
         nrows: spec.nrows,
         spec_end: spec.end,
         cancel_after: spec.cancel_after,
+        sibling: spec.sibling,
+        cancel_me: tokio::sync::Notify::new(),
         phase: AtomicU8::new(NOT_STARTED),
         seen: AtomicI64::new(-1),
         begin_call_seq: AtomicU64::new(0),
@@ -570,6 +713,8 @@ async fn run_round(round: &Round, seed: u64, next_id: &mut u64, dir: &std::path:
                     error_after_rows: nrows,
                     cancel_after: j,
                     yield_mask: 0,
+                    sibling: false,
+                    cancel_in_sibling: false,
                 };
                 let rec = new_rec(&spec, enum_task);
                 enum_recs.lock().unwrap().push(rec.clone());
@@ -626,6 +771,7 @@ async fn run_round(round: &Round, seed: u64, next_id: &mut u64, dir: &std::path:
         events: Vec::new(),
         at_ms: Vec::new(),
         fresh_retries: 0,
+        ended_while_sibling_inside: 0,
         counter: -1,
         rows: BTreeMap::new(),
         wedge: None,
@@ -652,6 +798,14 @@ async fn run_round(round: &Round, seed: u64, next_id: &mut u64, dir: &std::path:
     for h in &handles {
         h.abort();
     }
+    // Sibling tasks are bounded (a few milliseconds inside `tx(..)`); let them finish.
+    let helpers: Vec<JoinHandle<()>> = log.helpers.lock().unwrap().drain(..).collect();
+    for h in helpers {
+        if tokio::time::timeout(Duration::from_secs(20), h).await.is_err() {
+            result.inconclusive = Some("a sibling task did not leave its tx(..) closure within 20 s".into());
+        }
+    }
+    result.ended_while_sibling_inside = log.ended_while_sibling_inside.load(Ordering::SeqCst);
 
     // A fresh transaction must be able to start (and run) now. A statement error such as
     // SQLITE_BUSY is an allowed outcome of a single transaction (on a pooled file database the
@@ -663,7 +817,7 @@ async fn run_round(round: &Round, seed: u64, next_id: &mut u64, dir: &std::path:
     while result.wedge.is_none() && result.inconclusive.is_none() {
         fresh_attempts += 1;
         *next_id += 1;
-        let spec = TxnSpec { id: *next_id, nrows: 1, end: End::Commit, via_macro: false, error_after_rows: 0, cancel_after: 0, yield_mask: 0 };
+        let spec = TxnSpec { id: *next_id, nrows: 1, end: End::Commit, via_macro: false, error_after_rows: 0, cancel_after: 0, yield_mask: 0, sibling: false, cancel_in_sibling: false };
         let rec = new_rec(&spec, usize::MAX);
         per_task_recs.push(Arc::new(Mutex::new(vec![rec.clone()])));
         let (s2, l2, r2, sp2) = (store.clone(), log.clone(), rec.clone(), spec.clone());
@@ -681,7 +835,7 @@ async fn run_round(round: &Round, seed: u64, next_id: &mut u64, dir: &std::path:
                 let detail = json!({"when": "after all writers ended", "fresh_transaction": how, "attempts": fresh_attempts,
                     "phase": phase_name(rec.phase.load(Ordering::SeqCst))});
                 if how.starts_with("panicked") {
-                    result.wedge = Some(("C10:begin-panicked".into(), detail));
+                    result.wedge = Some((begin_panic_signature(&how).into(), detail));
                 } else if how.contains("no such table: vh_") {
                     result.wedge = Some(("C10:in-memory-database-wiped-by-cancelled-acquire".into(), detail));
                 } else if fresh_attempts >= 200 {
@@ -747,6 +901,19 @@ async fn run_round(round: &Round, seed: u64, next_id: &mut u64, dir: &std::path:
 // Oracle
 // ---------------------------------------------------------------------------------------------
 
+/// A panic inside `begin()` after some transaction was aborted: "never prevent later
+/// transactions from starting" is violated. The store's own assertion tells the shape: a
+/// transaction object was still sitting in the shared slot although the permit was free, i.e. an
+/// aborted (or concurrent) transaction was neither rolled back nor committed before its permit was
+/// released.
+fn begin_panic_signature(how: &str) -> &'static str {
+    if how.contains("already existing transaction") {
+        "C10:begin-panicked:stale-transaction-left-in-slot"
+    } else {
+        "C10:begin-panicked"
+    }
+}
+
 #[derive(Clone, Copy, Debug, PartialEq, Eq)]
 enum Class {
     Committed,
@@ -774,14 +941,16 @@ pub fn run(args: &Args) {
          transaction = begin, read shared counter, 1-4 tagged rows, counter+1, then commit / \
          rollback / failing statement + `?` / explicit permit drop (explicit API or the `tx!` \
          macro); 15 % of futures are dropped after a random j-th Pending, 1-2 tasks per round are \
-         aborted, and one extra task re-runs one body with cancellation after j = 1, 2, 3, ... \
+         aborted, every round contains transactions in which a cooperating clone of the store (own task) \
+         is inside a two-statement, yielding `store.tx(..)` closure while the owner commits / rolls back / \
+         drops the permit / takes the `?` path (also inside `tx!`) / has its future dropped, and one extra task re-runs one body with cancellation after j = 1, 2, 3, ... \
          Pendings until a run completes. Non-trivial round = >= 1 commit, >= 1 transaction ended by \
          each of rollback / error path / permit drop / future cancellation, and two transactions \
          of different tasks overlapping in time (begin-call of one between begin-call and end of \
          the other); distinct by the hash of the global begin/commit/abort event order.",
         if args.tier == Tier::Quick { 20 } else { 200 },
     );
-    let rounds = args.n(80, 3_000);
+    let rounds = args.n(60, 2_500);
     let only = args.params.get("case").and_then(|c| c.parse::<u64>().ok());
     // File databases go to tmpfs when available: the workload is about interleavings, not fsync.
     let tmp = if std::path::Path::new("/dev/shm").is_dir() { tempfile::tempdir_in("/dev/shm") } else { tempfile::tempdir() }.expect("tempdir");
@@ -822,7 +991,7 @@ pub fn run(args: &Args) {
         let plan = json!({
             "db": format!("{:?}", round.db), "workers": round.workers,
             "tasks": round.tasks.iter().map(|t| t.iter().map(|s| json!({"id": s.id, "rows": s.nrows, "end": format!("{:?}", s.end),
-                "macro": s.via_macro, "cancel_after": s.cancel_after})).collect::<Vec<_>>()).collect::<Vec<_>>(),
+                "macro": s.via_macro, "cancel_after": s.cancel_after, "sibling_inside_tx": s.sibling, "cancel_while_sibling_inside": s.cancel_in_sibling})).collect::<Vec<_>>()).collect::<Vec<_>>(),
             "abort_task_after_spins": round.abort_after,
             "enumerated_body": json!({"end": format!("{:?}", round.enum_end), "macro": round.enum_macro, "rows": round.enum_rows}),
         });
@@ -846,6 +1015,7 @@ pub fn run(args: &Args) {
         if let Some((sig, w)) = &res.wedge {
             let what = match sig.as_str() {
                 "C10:in-memory-database-wiped-by-cancelled-acquire" => "after the writers ended the in-memory database had lost all tables and every committed transaction: a cancelled begin()/query closed the pool's only connection and the pool opened a fresh, empty database",
+                "C10:begin-panicked:stale-transaction-left-in-slot" | "C10:begin-panicked" => "begin() of a fresh transaction panics after earlier transactions were aborted: later transactions can no longer start",
                 "C10:wedged-begin" => "an aborted transaction prevents later transactions from starting: begin() is pending while nothing is left in the runtime that could release the permit",
                 _ => "after all writers ended, 200 consecutive fresh transactions failed",
             };
@@ -903,7 +1073,7 @@ pub fn run(args: &Args) {
                             witness(json!({"txn": r.id, "rows": rows})));
                     }
                     if how.starts_with("panicked") && ph == BEGIN_CALLED {
-                        rep.violation("C10:begin-panicked",
+                        rep.violation(begin_panic_signature(&how),
                             format!("begin() of transaction {} panicked: {how}", r.id), witness(json!({"txn": r.id})));
                     }
                 }
@@ -918,10 +1088,16 @@ pub fn run(args: &Args) {
             if here {
                 let rows = rows.unwrap();
                 let seen = r.seen.load(Ordering::SeqCst);
-                let complete = rows.len() == r.nrows && rows.iter().enumerate().all(|(k, (kk, s))| *kk == k as i64 && *s == seen);
+                // Owner rows k = 0..nrows, plus the sibling's two rows (k = 100, 101) when a
+                // cooperating clone worked inside this transaction.
+                let mut want: Vec<i64> = (0..r.nrows as i64).collect();
+                if r.sibling {
+                    want.extend([100, 101]);
+                }
+                let complete = rows.iter().map(|(k, _)| *k).collect::<Vec<_>>() == want && rows.iter().all(|(_, s)| *s == seen);
                 if !complete {
                     rep.violation("C10:partial-transaction",
-                        format!("transaction {} is only partly in the committed state ({} of {} rows)", r.id, rows.len(), r.nrows),
+                        format!("transaction {} is only partly in the committed state ({} of {} rows)", r.id, rows.len(), r.nrows + if r.sibling { 2 } else { 0 }),
                         witness(json!({"txn": r.id, "rows": rows, "seen": seen})));
                 }
                 present.push(r);
@@ -991,6 +1167,8 @@ pub fn run(args: &Args) {
         };
         rep.case(if all_kinds && overlap { Some(hash_of(&order)) } else { None });
         rep.bump("transactions", res.recs.len() as u64);
+        rep.bump("transactions_with_a_sibling_inside_tx_closure", res.recs.iter().filter(|r| r.sibling && r.phase.load(Ordering::SeqCst) != NOT_STARTED).count() as u64);
+        rep.bump("owner_ended_while_sibling_was_inside_tx_closure", res.ended_while_sibling_inside);
         rep.bump("fresh_transaction_retries_after_statement_errors_recorded_not_judged", res.fresh_retries);
         rep.bump("events", res.events.len() as u64);
         if overlap {
